@@ -113,7 +113,7 @@ TreeNext ==
                                             ELSE [a |-> "add_assign", r |-> r, q |-> q])
                     /\ h' = h
             /\ (Cardinality(LiveOf(prog')) = 1) =>
-                  Emit([op |-> "accum.program", fl |-> Fl, ty |-> Ty, nreg |-> NK, tol |-> FALSE, steps |-> prog'])
+                  Emit([op |-> "accum.program", fl |-> Fl, ty |-> Ty, nreg |-> NK, tol |-> (Fl = "geo"), steps |-> prog'])
 ProgNext ==
     /\ Mode = "programs"
     /\ Len(prog) < L
